@@ -43,6 +43,7 @@ class ContractClient:
         self.reset_calls = []
         self.timeout = 10.0
         self.on_request = None  # hook(kind, Pending)
+        self.cancel_as_failed_payloads = False
 
     # ------------------------------------------------------------------ bookkeeping
     def _issue(self, kind, **args):
@@ -53,6 +54,15 @@ class ContractClient:
             p.done = True
             if p in self.pending:
                 self.pending.remove(p)
+            if self.cancel_as_failed_payloads and kind in ("fetch", "commit", "offset", "offset_fetch", "produce") and args.get("payloads"):
+                # what the real KafkaClient does for a broker-aware request that is cancelled while in flight: the per-broker
+                # requests are cancelled, and the call fails with FailedPayloadsError listing the payloads (not CancelledError)
+                from twisted.internet.defer import CancelledError as _TCE
+                from twisted.python.failure import Failure as _F
+
+                from afkak.common import FailedPayloadsError as _FPE
+
+                d.errback(_FPE([], [(pl, _F(_TCE())) for pl in args["payloads"]]))
 
         p.d = Deferred(_cancel)
         self.pending.append(p)
